@@ -124,6 +124,9 @@ func (c hconf) handler(comp templ.Component, rec **recorder) *templ.ComponentHan
 	if c.EH != 0 {
 		eh := c.EH
 		opts = append(opts, templ.WithErrorHandler(func(r *http.Request, err error) http.Handler {
+			if eh == 5 {
+				return nil // an error handler that has nothing to answer with
+			}
 			return http.HandlerFunc(func(w http.ResponseWriter, r *http.Request) {
 				(*rec).phase = "eh:"
 				defer func() { (*rec).phase = "after-eh:" }()
@@ -216,7 +219,7 @@ func c11World(rc *kernel.RunCtx) {
 	}
 
 	statuses := []int{0, 200, 201, 404, 500}
-	cts := []string{"", "text/plain; charset=utf-8", "application/xhtml+xml"}
+	cts := []string{"", "text/plain; charset=utf-8", "application/xhtml+xml", "text/event-stream"}
 	var defaultErrBody []byte
 	evals, failedReqs, partials := 0, 0, 0
 	for _, stream := range []bool{false, true} {
@@ -411,6 +414,36 @@ func c11World(rc *kernel.RunCtx) {
 				if bytes.Contains(body, []byte("[[chunk")) || containsDocPiece(body, D) || (rec.status >= 200 && rec.status < 300 && eh == 0) {
 					rc.Fail("C11/partial-document-sent", "conf %+v: the component panicked before chunk %d; the handler answered status %d with %q (ops %v)", conf, j, rec.status, kernel.Short(string(body), 200), rec.ops)
 				}
+			}
+		}
+	}
+	// the configured error handler returns no handler at all: calling it may panic (nothing has
+	// been sent then) or the default error response may go out; the half-rendered document under
+	// a success status is neither
+	if !rc.Failed() {
+		for j := 0; j <= len(chunks) && !rc.Failed(); j++ {
+			conf := hconf{Status: statuses[t.Choose(len(statuses), "nil-eh-status")], EH: 5}
+			var rec *recorder
+			h := conf.handler(mk(j, newEnv(u)), &rec)
+			rec = newRecorder()
+			escaped := func() (p any) {
+				defer func() { p = recover() }()
+				h.ServeHTTP(rec, httptest.NewRequest(http.MethodGet, "/page", nil))
+				return nil
+			}()
+			evals++
+			failedReqs++
+			k.Count("fault_error_handler_returns_nil", 1)
+			body := rec.body.Bytes()
+			if escaped != nil {
+				if len(body) != 0 {
+					rc.Fail("C11/partial-document-sent", "conf %+v: the component failed before chunk %d, the error handler returned nil and the call panicked, but %d bytes had been sent: %q", conf, j, len(body), kernel.Short(string(body), 200))
+				}
+				continue
+			}
+			rec.commit(200)
+			if bytes.Contains(body, []byte("[[chunk")) || containsDocPiece(body, D) || (rec.status >= 200 && rec.status < 300) {
+				rc.Fail("C11/partial-document-sent", "conf %+v: the component failed before chunk %d and the error handler returned nil; the handler answered status %d with %q (ops %v)", conf, j, rec.status, kernel.Short(string(body), 200), rec.ops)
 			}
 		}
 	}
